@@ -14,6 +14,7 @@
 #include "DensityFunction.hpp"
 #include "c16_rays.hpp"
 #include <atomic>
+#include <map>
 #include <omp.h>
 #include <thread>
 #include <sys/wait.h>
@@ -579,14 +580,20 @@ int main(int argc, char **argv) {
   };
   std::vector< Task > tasks;
   uint64_t probes = 0;
+  // probes (child processes with a 2 s alarm, all started at once): a ray
+  // crossing a periodic face of a leaf that spans the whole box along that axis
+  struct Probe {
+    const ACfg *c;
+    int per, d;
+    RayCase rc;
+    pid_t pid;
+  };
+  std::vector< Probe > probelist;
   for (auto &n : raycfg) {
     const ACfg *c = find_cfg(cfgs, n);
     AModel PM;
     PM.build(*c);
-    for (int per = 0; per < 8; ++per) {
-      // probe (child process, 3 s alarm): a ray crossing a periodic face of a
-      // leaf that spans the whole box along that axis
-      int hangmask = 0;
+    for (int per = 0; per < 8; ++per)
       for (int d = 0; d < 3; ++d) {
         if (!((per >> d) & 1) || c->n[d] != 1)
           continue;
@@ -598,47 +605,57 @@ int main(int argc, char **argv) {
           continue;
         Q lo[3], hi[3];
         PM.box(span, lo, hi);
-        RayCase rc;
-        for (int a = 0; a < 3; ++a) {
-          rc.p[a] = (double)(0.5L * (lo[a] + hi[a]));
-          rc.dir[a] = a == d ? 1. : 0.;
-        }
+        Probe p;
+        p.c = c, p.per = per, p.d = d;
         double minside = DBL_MAX;
-        for (int a = 0; a < 3; ++a)
+        for (int a = 0; a < 3; ++a) {
+          p.rc.p[a] = (double)(0.5L * (lo[a] + hi[a]));
+          p.rc.dir[a] = a == d ? 1. : 0.;
           minside = std::min(minside, c->S[a] / c->n[a]);
-        rc.target = 2.5 * c->S[d] / minside; // two and a half box lengths at opacity `base`
-        rc.iod = false;
-        ++probes;
-        fflush(nullptr);
-        const pid_t pid = fork();
-        if (pid == 0) {
-          alarm(3);
-          Result R2(A);
-          Stats s2;
-          rays_for(*c, per, 0, th, 0, R2, s2, &rc, false);
-          _exit(R2.violation_count ? 1 : 0);
         }
-        int stt = 0;
-        waitpid(pid, &stt, 0);
-        if (WIFSIGNALED(stt) && WTERMSIG(stt) == SIGALRM) {
-          hangmask |= 1 << d;
-          const std::string rep = fmt("{%s, \"what\": \"ray\", \"periodic\": %d, \"field\": 0, \"start\": \"%a %a %a\", \"dir\": \"%a %a %a\", \"target\": \"%a\", \"iod\": 0}",
-                                      cfg_json(*c).c_str(), per, rc.p[0], rc.p[1], rc.p[2], rc.dir[0], rc.dir[1], rc.dir[2], rc.target);
-          R.violation("C16:amrdensity:interact-does-not-return:periodic-axis-spanned-by-one-cell",
-                      fmt("cfg %s periodic %d: interact() does not return (3 s) for a ray along axis %d, which is periodic and spanned by a single "
-                          "cell; the cell is its own neighbour and the wrap-around is never applied: ",
-                          c->name.c_str(), per, d) + rep,
-                      rep);
-        } else if (!WIFEXITED(stt)) {
-          R.violation("C16:amrdensity:probe-crashed", fmt("cfg %s periodic %d axis %d: probe child ended with status %d", c->name.c_str(), per, d, stt), "null");
-        }
+        p.rc.target = 2.5 * c->S[d] / minside; // two and a half box lengths at opacity `base`
+        p.rc.iod = false;
+        probelist.push_back(p);
       }
+  }
+  fflush(nullptr);
+  for (Probe &p : probelist) {
+    ++probes;
+    p.pid = fork();
+    if (p.pid == 0) {
+      alarm(2);
+      Result R2(A);
+      Stats s2;
+      rays_for(*p.c, p.per, 0, th, 0, R2, s2, &p.rc, false);
+      _exit(R2.violation_count ? 1 : 0);
+    }
+  }
+  std::map< std::pair< const ACfg *, int >, int > hang;
+  for (Probe &p : probelist) {
+    int stt = 0;
+    waitpid(p.pid, &stt, 0);
+    const std::string rep = fmt("{%s, \"what\": \"ray\", \"periodic\": %d, \"field\": 0, \"start\": \"%a %a %a\", \"dir\": \"%a %a %a\", \"target\": \"%a\", \"iod\": 0}",
+                                cfg_json(*p.c).c_str(), p.per, p.rc.p[0], p.rc.p[1], p.rc.p[2], p.rc.dir[0], p.rc.dir[1], p.rc.dir[2], p.rc.target);
+    if (WIFSIGNALED(stt) && WTERMSIG(stt) == SIGALRM) {
+      hang[{p.c, p.per}] |= 1 << p.d;
+      R.violation("C16:amrdensity:interact-does-not-return:periodic-axis-spanned-by-one-cell",
+                  fmt("cfg %s periodic %d: interact() does not return (2 s) for a ray along axis %d, which is periodic and spanned by a single "
+                      "cell; the cell is its own neighbour and the wrap-around is never applied: ",
+                      p.c->name.c_str(), p.per, p.d) + rep,
+                  rep);
+    } else if (!WIFEXITED(stt)) {
+      R.violation("C16:amrdensity:probe-crashed", fmt("cfg %s periodic %d axis %d: probe child ended with status %d", p.c->name.c_str(), p.per, p.d, stt), rep);
+    }
+  }
+  for (auto &n : raycfg) {
+    const ACfg *c = find_cfg(cfgs, n);
+    for (int per = 0; per < 8; ++per)
       for (int field = 0; field < 3; ++field) {
         if (!th && field == 0)
           continue;
-        tasks.push_back({c, per, field, hangmask});
+        auto it = hang.find({c, per});
+        tasks.push_back({c, per, field, it == hang.end() ? 0 : it->second});
       }
-    }
   }
   // watchdog: a ray that does not come back within 30 s is reported as a hang
   std::atomic< bool > finished(false);
